@@ -269,7 +269,33 @@ var c14OpenOpts = []struct {
 	{"rbuf16", []parquet.FileOption{parquet.ReadBufferSize(16)}},
 }
 
-var c14Modes = []string{"sink-bytes", "sink-calls-big", "truncate", "readat"}
+var c14Modes = []string{"sink-bytes", "sink-calls-big", "truncate", "readat",
+	// the row groups of a file over a failing source are copied with WriteRowGroup into a writer of the same configuration
+	"copy-from-faulty-source"}
+
+// c14CopyAll opens the file over ra and writes its row groups to a fresh writer.
+func c14CopyAll(cfg c14Cfg, size int64, ra io.ReaderAt) (out []byte, err error, panicked any) {
+	defer func() {
+		if r := recover(); r != nil {
+			panicked = r
+		}
+	}()
+	f, e := parquet.OpenFile(ra, size)
+	if e != nil {
+		return nil, e, nil
+	}
+	var buf bytes.Buffer
+	w := parquet.NewGenericWriter[IORow](&buf, cfg.opts(tmpDir)...)
+	for _, rg := range f.RowGroups() {
+		if _, e := w.WriteRowGroup(rg); e != nil {
+			return nil, e, nil
+		}
+	}
+	if e := w.Close(); e != nil {
+		return nil, e, nil
+	}
+	return buf.Bytes(), nil, nil
+}
 
 func c14Run(x *engine.X) {
 	cfgs := c14Configs()
@@ -381,6 +407,34 @@ func c14Run(x *engine.X) {
 				return
 			}
 		}
+	case "copy-from-faulty-source":
+		fm := x.Choose(6, "readatmode")
+		x.Descf("readat-mode=%d", fm)
+		shape += fmt.Sprintf(";ramode=%d", fm)
+		data := clean.Bytes()
+		probe := &faultyReaderAt{r: bytes.NewReader(data), failAt: -1}
+		if out, err, p := c14CopyAll(cfg, int64(L), probe); err != nil || p != nil || len(out) == 0 {
+			x.Failf("harness", "clean-copy", "fault-free copy failed: %v %v", err, p)
+			return
+		}
+		for i := 0; i < probe.calls; i++ {
+			x.AddEvals(1)
+			fr := &faultyReaderAt{r: bytes.NewReader(data), failAt: i, mode: fm}
+			out, err, p := c14CopyAll(cfg, int64(L), fr)
+			if p != nil {
+				x.Failf("panic", shape, "ReadAt call %d/%d failing during the copy: panic %v", i, probe.calls, p)
+				return
+			}
+			if err != nil {
+				continue
+			}
+			got, rerr, rp := c14ReadAll(out, int64(len(out)), bytes.NewReader(out))
+			if rp != nil || rerr != nil || !equalStrings(got, exp) {
+				x.Failf("silent-copy", shape, "ReadAt call %d/%d of the source failed (mode %d) but WriteRowGroup and Close returned nil; the output reads back err=%v panic=%v with %d of %d rows", i, probe.calls, fm, rerr, rp, len(got), len(exp))
+				return
+			}
+		}
+		x.CountN("copy-readat-calls", int64(probe.calls))
 	case "readat":
 		oo := c14OpenOpts[x.Choose(len(c14OpenOpts), "open")]
 		fm := x.Choose(6, "readatmode")
@@ -437,7 +491,7 @@ func init() {
 	Register(&engine.Prop{
 		ID:    "C14",
 		Level: "fault_enumeration",
-		Rule: "12 writer configurations (write buffer default/0/7, page buffer pools memory/chunk(5)/file, bloom filters immediate/deferred, codec, 1-3 row groups, Flush points, v1, statistics) x {sink failing at EVERY byte offset of the fault-free output in 4 ways: partial write + error then refusing everything, one short write without error, dead forever, one-shot error then recovered} + {a 6000-row file: every sink Write call failing after 0 / 1 / half / all-but-one bytes} + {every strict prefix of every file opened with 5 option sets and fully read} + {every ReadAt call of open+read failing in 6 contract-conformant ways}; " +
+		Rule: "12 writer configurations (write buffer default/0/7, page buffer pools memory/chunk(5)/file, bloom filters immediate/deferred, codec, 1-3 row groups, Flush points, v1, statistics) x {sink failing at EVERY byte offset of the fault-free output in 4 ways: partial write + error then refusing everything, one short write without error, dead forever, one-shot error then recovered} + {a 6000-row file: every sink Write call failing after 0 / 1 / half / all-but-one bytes} + {every strict prefix of every file opened with 5 option sets and fully read} + {every ReadAt call of open+read failing in 6 contract-conformant ways} + {the same faults while the row groups are copied with WriteRowGroup to a writer of the same configuration: a nil error means a complete output}; " +
 			"evaluation = one fault position; non-trivial = each (mode, config, fault class)",
 		Assumptions: []string{"a read that returns the complete original rows despite an injected ReadAt fault is accepted (the failing bytes were not needed)"},
 		Bound:       func(string) int { return 0 },
